@@ -217,7 +217,7 @@ class Run:
             for f in os.listdir(outdir):
                 if f.startswith("race."):
                     os.remove(os.path.join(outdir, f))
-            env["GORACE"] = f"log_path={outdir}/race halt_on_error=0"
+            env["GORACE"] = f"log_path={outdir}/race halt_on_error=0 exitcode=0"
         # the implementation under test leaves temporary stores behind: keep them in a
         # private directory that goes away with the run
         tmpd = f"{outdir}/tmp"
